@@ -162,6 +162,14 @@ Proof.
   end.
 Qed.
 
+Lemma text_paths_total s :
+  path_set_key s <> Panics /\ path_comment s <> Panics /\ path_bind_text s <> Panics /\
+  (parse_i64 s = None -> forall k, path_set_key s <> Key k /\ path_comment s <> Key k /\ path_bind_text s <> Key k).
+Proof.
+  unfold path_set_key, path_comment, path_bind_text.
+  destruct (all_digits s); destruct (parse_i64 s); repeat split; try discriminate; intros; discriminate.
+Qed.
+
 Lemma set_shard_refused cur v n : (n <= v)%N -> set_shard cur v n = (cur, false).
 Proof. intros H. unfold set_shard. destruct (N.leb_spec n v); [reflexivity|lia]. Qed.
 
@@ -174,4 +182,39 @@ Proof.
   unfold candidates. intros H. apply filter_In in H. destruct H as [H1 H2]. apply filter_In in H1.
   destruct H1 as [H0 H1]. apply N.eqb_eq in H2. split; [exact H2|]. split; [exact H0|].
   intros r ->. apply N.eqb_eq in H1. exact H1.
+Qed.
+
+(* the key is found at whatever position it is bound, whatever the other parameters hold *)
+Lemma bind_keys_skip i ph fmts params :
+  (forall j, (i < j <= i + length params)%nat -> existsb (Nat.eqb j) ph = false) ->
+  bind_keys_from i ph fmts params = [].
+Proof.
+  revert i. induction params as [|p r IH]; intros i H; cbn [bind_keys_from]; [reflexivity|].
+  rewrite (H (S i)) by (cbn [length]; lia).
+  apply IH. intros j Hj. apply H. cbn [length]. lia.
+Qed.
+
+Lemma bind_keys_app i ph fmts xs ys :
+  bind_keys_from i ph fmts (xs ++ ys) = bind_keys_from i ph fmts xs ++ bind_keys_from (i + length xs) ph fmts ys.
+Proof.
+  revert i. induction xs as [|x xs IH]; intros i; cbn [app bind_keys_from length].
+  - rewrite Nat.add_0_r. reflexivity.
+  - rewrite IH. replace (S i + length xs)%nat with (i + S (length xs))%nat by lia.
+    destruct (existsb (Nat.eqb (S i)) ph); [|reflexivity].
+    destruct (decode_param (fmt_of fmts i) x); reflexivity.
+Qed.
+
+Lemma bind_position before after ph fmts p k :
+  let pos := S (length before) in
+  (forall j, existsb (Nat.eqb j) ph = true <-> j = pos) ->
+  decode_param (fmt_of fmts (length before)) p = Key k ->
+  bind_keys ph fmts (before ++ p :: after) = [k].
+Proof.
+  intros pos Hph Hdec. unfold bind_keys. rewrite bind_keys_app.
+  rewrite bind_keys_skip.
+  2:{ intros j Hj. destruct (existsb (Nat.eqb j) ph) eqn:E; [|reflexivity]. apply Hph in E. unfold pos in E. lia. }
+  cbn [app bind_keys_from Nat.add].
+  assert (E: existsb (Nat.eqb (S (length before))) ph = true) by (apply Hph; reflexivity).
+  rewrite E, Hdec. rewrite bind_keys_skip; [reflexivity|].
+  intros j Hj. destruct (existsb (Nat.eqb j) ph) eqn:E2; [|reflexivity]. apply Hph in E2. unfold pos in E2. lia.
 Qed.
